@@ -163,7 +163,7 @@ func (e *treeEngine) Generate(prop string, r *simrt.RNG, tier string, run int) *
 		order = append(order, rest[i])
 	}
 	for _, id := range order {
-		sc.Ops = append(sc.Ops, simrt.Op{K: "dlv", I: []int64{int64(id), int64(r.Intn(2)), int64(r.Intn(3))}})
+		sc.Ops = append(sc.Ops, simrt.Op{K: "dlv", I: []int64{int64(id), int64(r.Intn(3)), int64(r.Intn(3))}})
 		if r.Chance(1, 6) { // duplicate delivery, possibly later
 			sc.Ops = append(sc.Ops, simrt.Op{K: "dlv", I: []int64{int64(ids[r.Intn(len(ids))]), int64(r.Intn(2)), int64(r.Intn(3))}})
 		}
